@@ -191,6 +191,25 @@ def judge(ctx: core.Ctx, case: dict[str, Any]) -> None:
                     if M == 0:
                         break  # a limit of 0 is a separate mechanism; keep judging the other limit values
                     return
+    if U > 1 and not case.get("async"):
+        # the limit is read when a render starts: the same template object, rendered once without a limit (e.g. to learn the unlimited
+        # size), obeys a limit set on its environment afterwards - and is free again once the limit is taken away
+        env_live = make(case, "strict", {})
+        t = drv.call(env_live.from_string, case["source"])
+        if t.ok and drv.render(t.value, data).ok:
+            env_live.output_stream_limit = U - 1
+            again = drv.render(t.value, data)
+            ctx.count("renders_after_limit_set_on_live_environment")
+            if again.ok or again.err_class != "OutputStreamLimitError":
+                ctx.evaluations += 1
+                ctx.violation(f"limit-set-on-live-environment-ignored:{construct(case)}", f"output_stream_limit={U - 1} set on the environment after a first (unlimited, {U} bytes) render of the same template object: second render gave {again.brief()!r:.120}")
+                return
+            env_live.output_stream_limit = None
+            third = drv.render(t.value, data)
+            if not third.ok or third.value != base.value:
+                ctx.evaluations += 1
+                ctx.violation(f"limit-removed-on-live-environment-still-applies:{construct(case)}", f"after output_stream_limit was set back to None the same template object renders {third.brief()!r:.120}")
+                return
     ctx.ok((case["source"], case["partials"], case["data"]), nontrivial=U > 0 and (multibyte or construct(case) in ("capture", "render", "include")))
 
 
